@@ -201,10 +201,21 @@ inductive Instr where
   | setGlobal (i : Nat)
   | defGlobal (i : Nat)    -- DefineGlobal: pops
   | dup
+  -- functions (executed by the machine of `Core/Fn`; `step` below does not execute them)
+  | call (n : Nat)         -- Call: `n` arguments on top of the callee
+  | retv                   -- ReturnValue
+  | ret                    -- Return (null)
+  | getLocal (i : Nat)
+  | setLocal (i : Nat)     -- the value stays on the stack
+  | defLocal (i : Nat)     -- DefineLocal: pops
+  | closure (c nfree : Nat) -- Closure: constant `c`, `nfree` captured values
+  | currClosure
 deriving Repr
 
 def Instr.size : Instr → Nat
   | .const _ | .jump _ | .jif _ | .jifnp _ | .getGlobal _ | .setGlobal _ | .defGlobal _ => 3
+  | .call _ | .getLocal _ | .setLocal _ | .defLocal _ => 2
+  | .closure .. => 4
   | _ => 1
 
 def bytes : List Instr → Nat
